@@ -69,6 +69,10 @@ def case_sig(row, variants):
     s = "kind=%s path=%s" % (c["kind"], generic_path(c["p"]))
     if c["kind"] in ("ph", "emb"):
         s += " src=%s set=%d" % (c["src"], int(c["set"]))
+    if c["kind"] == "phadv":
+        s += " src=%s scenario=%d" % (c["src"], c["x"])
+    if c["kind"] == "range":
+        s += " class=%d" % c["i"]
     comp = component_of(c, variants)
     return "%s comp=%s via=%s shape=%s reg=%s" % (s, comp, row["via"], row["shape"], row["reg"])
 
@@ -123,10 +127,10 @@ def validate(v, obs_path, rows, variants, points_path, workers=8):
             continue
         seen.add(sig)
         v.violation(sig, "case %s (variant %s, base %s) via %s/%s/%s: real decoding gives %s%s%s; violates %s of TraceConfigDecode" % (
-            json.dumps({k: c[k] for k in ("kind", "p", "src", "set")}), c["v"], c["base"], row["via"], row["shape"], row["reg"],
+            json.dumps({k: c[k] for k in ("kind", "p", "i", "src", "set", "x")}) + " " + json.dumps(row.get("_delta", {}).get("set", []))[:200], c["v"], c["base"], row["via"], row["shape"], row["reg"],
             row["out"], (" (%s)" % row["err"][:160]) if row["err"] else "", detail, inv),
             replay_obj={"invariant": inv, "line": {k: row[k] for k in ("c", "via", "shape", "reg", "out", "got", "err")},
-                        "delta": row.get("_delta"), "phval": row.get("_phval")},
+                        "delta": row.get("_delta"), "phval": row.get("_phval"), "adv": row.get("_adv")},
             replay_name="confdecode_%d_%s.json" % (ln, inv))
     return tr
 
@@ -224,7 +228,7 @@ def run(tier, v):
         k = json.dumps(r_["c"], sort_keys=True)
         if k not in by_case:
             raise vlib.MachineryError("driver reported a case TLC did not generate: %s" % k)
-        r_["_delta"], r_["_phval"] = by_case[k]["delta"], by_case[k]["phval"]
+        r_["_delta"], r_["_phval"], r_["_adv"] = by_case[k]["delta"], by_case[k]["phval"], by_case[k]["adv"]
         if r_["reg"] == "rec" and r_["via"] == "decode":
             n_rec[k] = n_rec.get(k, 0) + 1
     if len(n_rec) != len(cases) or any(x != 2 for x in n_rec.values()):
@@ -268,7 +272,7 @@ def replay(path, v):
     b, variants, cases, report, (variants_p, cases_p, points_p) = generate(d)
     line = obj["line"]
     one = os.path.join(d, "one_case.ndjson")
-    vlib.write_ndjson(one, [{"c": line["c"], "delta": obj["delta"], "phval": obj["phval"]}])
+    vlib.write_ndjson(one, [{"c": line["c"], "delta": obj["delta"], "phval": obj["phval"], "adv": obj.get("adv") or {"src": "", "eol": "lf", "lines": [], "envs": [], "req": ""}}])
     obs = os.path.join(d, "obs1.ndjson")
     vlib.run_driver(b, ["confdecode", "-variants", variants_p, "-in", one, "-out", obs])
     rows = vlib.read_ndjson(obs)
